@@ -339,6 +339,44 @@ func (c *Ctx) ruleParseHelpers() {
 				}
 			}
 		})
+		// every returned list is that item-wise built list (or the empty list for the empty string)
+		allInstrs(fn, func(b *ssa.BasicBlock, ins ssa.Instruction) {
+			r, ok := ins.(*ssa.Return)
+			if !ok || len(r.Results) != 1 {
+				return
+			}
+			seen := map[ssa.Value]bool{}
+			var walk func(v ssa.Value)
+			walk = func(v ssa.Value) {
+				if seen[v] {
+					return
+				}
+				seen[v] = true
+				switch x := v.(type) {
+				case *ssa.Phi:
+					for _, e := range x.Edges {
+						walk(e)
+					}
+				case *ssa.MakeSlice:
+				case *ssa.Call:
+					if bi, isB := x.Call.Value.(*ssa.Builtin); isB && bi.Name() == "append" {
+						walk(x.Call.Args[0])
+						return
+					}
+					okAll, why = false, "returns a list that is not built item by item: "+short(P.Desc(v))
+				case *ssa.Slice:
+					// literal: only the empty one, for the empty input
+					if len(c.sliceLitElems(x)) != 0 || !hasLit(P.BlockGuards(b), func(l Lit) bool {
+						return l.Kind == "eq" && l.Pos && (P.Desc(l.X) == `const("")` || P.Desc(l.Y) == `const("")`)
+					}) {
+						okAll, why = false, "returns a literal list that bypasses trimming / dropping of empty items: "+short(P.Desc(v))
+					}
+				default:
+					okAll, why = false, "returns "+short(P.Desc(v))
+				}
+			}
+			walk(r.Results[0])
+		})
 		c.check(okAll && nApp == 1, "CONFIG/LIST", "config.parseStringList", P.Pos(fn.Pos()), "split on commas, trim, drop empty, upper-case iff requested", "parseStringList: "+why)
 	} else {
 		c.fail("CONFIG/LIST", "config.parseStringList", "", "function not found")
